@@ -104,4 +104,10 @@ var props = map[string]propSpec{
 		"'within bounded time' is decided at quiescence: no thread can run any more and the peer still has not seen end-of-stream",
 		"histories of length <=3 (quick) / 4 (thorough) over {client write, server write, client close, server close, large client write}, plus an unreachable TCP server",
 	}},
+	"C18": {Level: "exploration", Harnesses: []harnessSpec{
+		{Name: "appw", Quick: 120, Thorough: 900, Args: []string{"-prop", "C18"}},
+	}, Assume: []string{
+		"App Engine datastore/memcache/users are the in-memory fake (package vae: string keys, =,<,> filters, key-ordered results, 1 MB entity limit); no real service exists offline",
+		"backend sets: every single backend and every ordered pair over 3 owners x 10 prefix lists x 5 last-seen ages (never, 0, 4m59s, 5m, 5m1s), plus a sample of triples; 3 users x 5 paths per set; each set is also registered in reverse order; ages are produced on the virtual clock through the real store API (agent polls)",
+	}},
 }
